@@ -5,6 +5,9 @@ VERIF = os.path.dirname(os.path.dirname(os.path.abspath(__file__)))
 
 # id -> (category, technique, text, note, design_ref)
 CHECKS = {
+    'C01': ('exploration', 'trace monitoring of the real driver (mpmon, ASan build) + exact point-wise decision of the recorded delivered model (z3 with the original variables fixed, sat witnesses re-validated by an independent evaluator) against exact evaluation of the NL model',
+            'Random models of the exact fragment are converted under five acceptance configurations (all native, linear rows only, linear+indicators, linear+quadratic, random subsets with levels 0/1/2) and random cvt:* options; at every test point of the original-variable grid the NL model is evaluated exactly and the delivered model is decided with the original variables fixed: feasible iff feasible, the NL objective value attainable and not improvable over the auxiliary variables; a refusal must carry a diagnostic and a 2xx/5xx code (2xx only if no test point is feasible).',
+            'functional constraints accepted natively are read as equalities; rows carrying the non-dyadic comparison epsilon and rounded inferred bounds hold within 1e-9 relative, objectives are compared to 1e-6; points decided by a comparison gap below 1/512 and runs with an announced piecewise-linear approximation are not judged; unsat answers rest on z3', '2/C01'),
     'C06': ('exploration', 'trace monitoring of the real driver (mpmon, ASan build): bounds/types of every auxiliary variable and its defining functional constraint as received by the ModelAPI, judged by forward evaluation with independent semantics',
             'Random models with hostile variable domains (finite, fixed, negative, zero-crossing, half-infinite, free; continuous/integer/binary) and expressions over 40 functional constraint types (affine, quadratic, abs, min, max, powers incl. negative/fractional exponents, a^x, division, if-then-else, counting, logic, exp/log/trigonometric/hyperbolic functions, piecewise-linear) are converted with every type accepted natively; at every sampled domain point each auxiliary value must lie inside the delivered bounds and be integral if declared integer, and each delivered objective must equal the NL objective.',
             '1e-9 relative slack on bounds (they are computed in double arithmetic); models with constraints are judged at NL-feasible points only; two known findings about the forced positivity of log arguments, attributed by region', '2/C06'),
